@@ -28,7 +28,7 @@ ASSUMPTIONS = ["script well-formedness for the characterisation: k_j non-increas
 
 
 def correspond(run):
-    n = 700 if run.tier == "quick" else 7000
+    n = 700 if run.depth == "quick" else 7000
     cases, codes = sklib.correspond_sk(run, n, "setsketch")
     if cases is None:
         return
@@ -38,7 +38,7 @@ def correspond(run):
                        "parameters and with m, q changed or b, a moved by 1 or 2 ulps; non-trivial = distinct history with >= 2 operations")
     low_bad = [c["meta"] for c in cases if c["meta"]["low_sketch"] > (c["meta"]["min_register"] if c["meta"]["min_register"] is not None else 0)]
     run.oblige("direct:get_low_sketch<=min-register", "correspondence", not low_bad, "%s" % low_bad[:2])
-    n2 = 300 if run.tier == "quick" else 3000
+    n2 = 300 if run.depth == "quick" else 3000
     cases2, codes2 = sklib.correspond_sk(run, n2, "superminhash")
     if cases2 is not None:
         sklib.report_cases(run, cases2, codes2, "superminhash",
